@@ -35,23 +35,65 @@ def result_names(fa) -> Set[str]:
     return out
 
 
+class _Unprovided:
+    """the library's `unprovided` sentinel in the modelled domain: callable test, falsy"""
+    def __call__(self, v):
+        return v is self
+
+    def __bool__(self):
+        return False
+
+    def __repr__(self):
+        return "unprovided"
+
+
+def get_default_table(run):
+    """ParserField.get_default evaluated over its finite decision domain (nothing of the library runs: the checker's own
+    interpreter, evalfn.py, walks the function's syntax tree).  -> list of (inputs, result) with results
+    U / ('copy', 'forced'|'declared'|'factory') / anything else as found"""
+    from types import SimpleNamespace
+    from ..evalfn import Evaluator
+    g = run.repo.func("utype.parser.field", "ParserField.get_default")
+    U = _Unprovided()
+    rows = []
+    for no_default in (False, True):
+        for defer in (False, True, None):
+            for f_defer in (False, True):
+                for o_defer in (False, True):
+                    for forced in (U, "forced"):
+                        for declared in (U, "declared"):
+                            for factory in (None, "factory"):
+                                self_ns = SimpleNamespace(defer_default=f_defer, default=declared, name="field",
+                                                          default_factory=(lambda: "factory") if factory else None)
+                                opts = SimpleNamespace(no_default=no_default, defer_default=o_defer, force_default=forced)
+                                env = {"self": self_ns, "options": opts, "defer": defer, "unprovided": U,
+                                       "copy_value": lambda v: ("copy", v), "repr": repr}
+                                for p_ in g.params:
+                                    env.setdefault(p_, None)
+                                got = Evaluator(g.node, env, {}).run()
+                                rows.append(((no_default, defer, f_defer, o_defer, forced, declared, factory), got, U))
+    return g, rows
+
+
 def r05a(run, rule="R05a"):
-    f = run.repo.func("utype.parser.field", "ParserField.get_default")
-    fa = analysis(f)
-    rets = [n for n in fa.cfg.nodes if n.kind == "stmt" and isinstance(n.ast, ast.Return) and fa.cfg.is_live(n)]
+    # decided over get_default's finite decision domain (see get_default_table): whatever default is handed out went
+    # through copy_value - however the function is laid out
+    f, rows = get_default_table(run)
     vals = 0
-    for r in rets:
-        v = r.ast.value
-        if unparse(v) == "unprovided":
+    bad = {}
+    for inputs, got, U in rows:
+        if got is U:
             continue
         vals += 1
-        ok = isinstance(v, ast.Call) and call_attr(v) == "copy_value" and len(v.args) == 1
-        run.check(rule, f, f"`{norm_stmt(r.ast)}` hands out a copy of the default", ok,
-                  construct="default returned without copy_value",
-                  message=f"ParserField.get_default: `{norm_stmt(r.ast)}` returns the default object itself",
-                  necessity="two instances share one mutable default: changing one changes the other and the class default",
-                  node=r.ast)
-    run.floor(rule, "value returns in get_default", vals, 1)
+        if not (isinstance(got, tuple) and len(got) == 2 and got[0] == "copy"):
+            bad.setdefault(repr(got), inputs)
+    run.check(rule, f, "every default get_default hands out is a copy_value(...) of it", not bad,
+              construct="default returned without copy_value",
+              message="ParserField.get_default returns the default object itself: " + "; ".join(
+                  f"{k} for (no_default, defer, field.defer_default, options.defer_default, force_default, default, factory) = {v}"
+                  for k, v in sorted(bad.items())[:2]),
+              necessity="two instances share one mutable default: changing one changes the other and the class default")
+    run.floor(rule, "input shapes for which get_default hands out a default", vals, 20)
     g = run.repo.func("utype.utils.functional", "copy_value")
     ga = analysis(g)
     rec = [c for n, c in ga.all_calls() if call_attr(c) == "copy_value"]
@@ -268,39 +310,36 @@ def r05e(run):
             and "__dict__" in unparse(n.ast.targets[0])]
     run.check("R05e", f, "set_attributes stores every parsed value under its attribute name", bool(sets),
               construct="set_attributes store", message="set_attributes no longer stores into instance.__dict__")
-    # get_default: option precedence
-    g = run.repo.func("utype.parser.field", "ParserField.get_default")
-    ga = analysis(g)
-    for n in ga.cfg.nodes:
-        if n.kind == "stmt" and isinstance(n.ast, ast.Return) and unparse(n.ast.value) != "unprovided" and ga.cfg.is_live(n):
-            fs = facts(ga, n)
-            nd = any(opt_attr(a) == "no_default" and not p for a, p in ga.facts.atoms_at(n))
-            run.check("R05e", g, "no_default suppresses every default", nd,
-                      construct="no_default ignored", message="get_default can return a default under options.no_default",
-                      necessity="Options(no_default=True) would still fill defaults", node=n.ast)
-    # the local that carries the chosen default is found by role: the argument of the returned copy_value(...)
-    dnames = {unparse(n.ast.value.args[0]) for n in ga.cfg.nodes if n.kind == "stmt" and isinstance(n.ast, ast.Return)
-              and isinstance(n.ast.value, ast.Call) and call_attr(n.ast.value) == "copy_value" and n.ast.value.args
-              and isinstance(n.ast.value.args[0], ast.Name)}
-    assigns = {}
-    for n in ga.cfg.nodes:
-        if n.kind == "stmt" and isinstance(n.ast, ast.Assign) and unparse(n.ast.targets[0]) in dnames:
-            v = n.ast.value
-            key = "force_default" if opt_attr(v) == "force_default" else unparse(v)
-            assigns[key] = {("unprovided(force_default)" if isinstance(a, ast.Call) and call_attr(a) == "unprovided" and a.args
-                             and opt_attr(a.args[0]) == "force_default" else unparse(a), p) for a, p in ga.facts.atoms_at(n)}
-    ok = "force_default" in assigns and ("unprovided(force_default)", False) in assigns["force_default"]
-    ok2 = "self.default" in assigns and ("unprovided(force_default)", True) in assigns["self.default"]
-    fac = [k for k in assigns if "default_factory" in k]
-    ok3 = bool(fac) and ("unprovided(self.default)", True) in assigns[fac[0]]
-    run.check("R05e", g, "precedence: force_default, then the declared default, then the factory", ok and ok2 and ok3,
-              construct="default precedence", message="get_default does not apply force_default > default > "
-              "default_factory", necessity="force_default would not override declared defaults (or factories shadow defaults)")
-    # defer handling: defer=False returns nothing for deferred defaults and vice versa
-    defer_ret = [n for n in ga.cfg.nodes if n.kind == "stmt" and isinstance(n.ast, ast.Return)
-                 and unparse(n.ast.value) == "unprovided" and any("defer_default" in t for t, p in facts(ga, n))]
-    run.check("R05e", g, "deferred defaults are withheld at parse time and served on access", len(defer_ret) >= 2,
-              construct="defer_default", message="get_default no longer distinguishes defer=True/False")
+    # get_default as a decision table: evaluated over (no_default, defer, field / options defer_default, force_default,
+    # declared default, factory) and compared with the documented rule
+    g, rows = get_default_table(run)
+    wrong = {}
+    for inputs, got, U in rows:
+        no_default, defer, f_defer, o_defer, forced, declared, factory = inputs
+        if no_default:
+            want, clause = U, "no_default suppresses every default"
+        elif isinstance(defer, bool) and bool(f_defer or o_defer) is not defer:
+            want, clause = U, "a deferred default is withheld at parse time and an immediate one on access"
+        elif forced is not U:
+            want, clause = ("copy", "forced"), "force_default comes first"
+        elif declared is not U:
+            want, clause = ("copy", "declared"), "the declared default comes before the factory"
+        elif factory:
+            want, clause = ("copy", "factory"), "the factory is used when nothing else is declared"
+        else:
+            want, clause = U, "no default at all"
+        if got != want and not (got is U and want is U):
+            wrong.setdefault(clause, (inputs, got, want))
+    for clause in ("no_default suppresses every default",
+                   "a deferred default is withheld at parse time and an immediate one on access",
+                   "force_default comes first", "the declared default comes before the factory",
+                   "the factory is used when nothing else is declared", "no default at all"):
+        w = wrong.get(clause)
+        run.check("R05e", g, f"get_default: {clause}", w is None, construct=f"get_default: {clause}",
+                  message=f"ParserField.get_default: {clause} - but for (no_default, defer, field.defer_default, "
+                          f"options.defer_default, force_default, default, factory) = {w[0] if w else ''} it returns "
+                          f"{w[1] if w else ''!r} instead of {w[2] if w else ''!r}",
+                  necessity="defaults are filled (or withheld) against the documented option precedence")
     # alias lookup order in _get_field_from
     h = run.repo.func("utype.parser.base", "BaseParser._get_field_from")
     ha = analysis(h)
